@@ -426,8 +426,11 @@ def replay(rp):
         rec = out[0]
         a, b = C.parse_bl_input(rp["a"]), C.parse_bl_input(rp["b"])
         if rp["op"] == "reflexive":
-            if "raw_exc" in rec or "exc" in rec or not rec.get("eq"):
-                return {"class": ["reflexive"], "detail": str(rec), "replay": rp}
+            if "raw_exc" in rec or "exc" in rec:
+                return {"class": ["reflexive", "raises", (rec.get("raw_exc") or rec.get("exc")).split(":")[0],
+                                  str(rec.get("raw_frame") or rec.get("frame"))], "detail": str(rec), "replay": rp}
+            if not rec.get("eq"):
+                return {"class": ["reflexive", "not-equal"], "detail": str(rec), "replay": rp}
             return None
         if rec.get("eq"):
             d = C.equiv(a, b, 1, 64)
